@@ -959,8 +959,10 @@ class IteratorProxy(BaseProxy):
         return self._callmethod('close', args)
 
 
-@add_proxy_methods('__getattribute__')
 class NamespaceProxy(BaseProxy):
+    # Do not generate a `__getattribute__` proxy method for this class (as `add_proxy_methods` would):
+    # it would intercept every attribute access, including `self._callmethod`, and recurse for ever.
+    # The hosted object's `__getattribute__` is reached via `__getattr__` below.
     def __getattr__(self, key):
         if key[0] == '_':
             return object.__getattribute__(self, key)
